@@ -221,9 +221,7 @@ func (c *c09) run(tape *kernel.Tape) {
 	// hand-made JOSE headers over otherwise valid claims: members of the wrong JSON type, unknown critical members, embedded keys
 	validAccessDoc, _ := json.Marshal(validAccess)
 	validAssertDoc, _ := json.Marshal(validAssert)
-	for hi, hdr := range []string{`{"alg":%q,"typ":1}`, `{"alg":%q,"typ":true}`, `{"alg":%q,"typ":["JWT"]}`, `{"alg":%q,"typ":{"a":"JWT"}}`, `{"alg":%q,"typ":null,"kid":null}`,
-		`{"alg":%q,"kid":1}`, `{"alg":%q,"kid":["a"]}`, `{"alg":%q,"cty":7,"typ":"at+jwt"}`, `{"alg":%q,"crit":["exp"],"exp":1}`, `{"alg":%q,"crit":"exp"}`, `{"alg":%q,"jwk":"x"}`,
-		`{"alg":%q,"jwk":{"kty":"RSA"}}`, `{"alg":%q,"x5c":[1]}`, `{"alg":%q,"b64":false,"crit":["b64"]}`, `{"alg":1}`, `{"alg":[%q]}`, `{"alg":%q,"alg":"none"}`, `{"typ":"JWT"}`} {
+	for hi, hdr := range hostileHeaders {
 		if strings.Contains(hdr, "%q") {
 			hdr = fmt.Sprintf(hdr, string(key.Alg))
 		}
@@ -853,8 +851,51 @@ func (c *c09) decoders(base int) {
 			}()
 		}
 	}
+	// the same verifiers over hand-made headers with unobjectionable claims
+	nowU := time.Now().Unix()
+	goodDoc, _ := json.Marshal(map[string]any{"iss": w.Issuer, "sub": "u1", "aud": []string{"web"}, "azp": "web", "client_id": "web", "iat": nowU, "exp": nowU + 3600, "auth_time": nowU})
+	for hi, hdr := range hostileHeaders {
+		if strings.Contains(hdr, "%q") {
+			hdr = fmt.Sprintf(hdr, string(key.Alg))
+		}
+		tok := b64(hdr) + "." + b64(string(goodDoc)) + "." + b64("not-a-signature")
+		for _, vf := range []struct {
+			name string
+			call func() error
+		}{
+			{"rp.VerifyIDToken", func() error { _, err := rp.VerifyIDToken[*oidc.IDTokenClaims](ctx, tok, idv); return err }},
+			{"rp.VerifyTokens", func() error { _, err := rp.VerifyTokens[*oidc.IDTokenClaims](ctx, "at", tok, idv); return err }},
+			{"op.VerifyAccessToken", func() error { _, err := op.VerifyAccessToken[*oidc.AccessTokenClaims](ctx, tok, atv); return err }},
+			{"op.VerifyIDTokenHint", func() error { _, err := op.VerifyIDTokenHint[*oidc.IDTokenClaims](ctx, tok, hv); return err }},
+			{"oidc.ParseToken", func() error { _, err := oidc.ParseToken(tok, new(oidc.IDTokenClaims)); return err }},
+		} {
+			id++
+			if c.o.Spec.KeepSet && !containsInt(c.o.Spec.Keep, id) {
+				continue
+			}
+			c.o.StepIDs = append(c.o.StepIDs, id)
+			c.o.Steps++
+			c.cases++
+			func() {
+				defer func() {
+					if r := recover(); r != nil {
+						c.o.Violate("C09", "panic", "verifier/"+vf.name+"/header", id, "%s panicked on a token with header %d (%s): %v", vf.name, hi, hdr, r)
+					}
+				}()
+				if vf.call() == nil && vf.name != "oidc.ParseToken" {
+					c.o.Violate("C09", "accepted", "verifier/"+vf.name+"/header", id, "%s accepted a token without a signature (header %s)", vf.name, hdr)
+				}
+			}()
+		}
+	}
 	c.o.ProbeN("decoder-cases", id-base)
 }
+
+// hostileHeaders are hand-made JOSE headers (%q: the algorithm in use): members of the wrong JSON type, unknown critical
+// members, embedded keys
+var hostileHeaders = []string{`{"alg":%q,"typ":1}`, `{"alg":%q,"typ":true}`, `{"alg":%q,"typ":["JWT"]}`, `{"alg":%q,"typ":{"a":"JWT"}}`, `{"alg":%q,"typ":null,"kid":null}`,
+	`{"alg":%q,"kid":1}`, `{"alg":%q,"kid":["a"]}`, `{"alg":%q,"cty":7,"typ":"at+jwt"}`, `{"alg":%q,"crit":["exp"],"exp":1}`, `{"alg":%q,"crit":"exp"}`, `{"alg":%q,"jwk":"x"}`,
+	`{"alg":%q,"jwk":{"kty":"RSA"}}`, `{"alg":%q,"x5c":[1]}`, `{"alg":%q,"b64":false,"crit":["b64"]}`, `{"alg":1}`, `{"alg":[%q]}`, `{"alg":%q,"alg":"none"}`, `{"typ":"JWT"}`}
 
 type staticKeySet struct{ keys []jose.JSONWebKey }
 
